@@ -425,6 +425,15 @@ theorem illuminated_fraction_phase {r d R : ℝ} (hr : 0 < r) (hd : 0 < d) (h1 :
           mul_le_mul_of_nonneg_right this (by positivity)
       _ = 180 := by field_simp
 
+/-- The clamp added by a27247f (rounding can push the cosine of a flat triangle an ulp beyond ±1): a cosine that
+    overshoots by less than 1e-12 yields exactly 0° (cosine > 1) or 180° (cosine < −1) instead of a `ValueError`;
+    in exact arithmetic such triples are infeasible by less than 1e-12, feasible triples never reach the clamp
+    (`illuminated_fraction_phase`). -/
+theorem phase_angle_clamp {r d R : ℝ} (hden : 2 * r * d ≠ 0)
+    (h1 : 1 < |(r * r + d * d - R * R) / (2 * r * d)|) (h2 : |(r * r + d * d - R * R) / (2 * r * d)| < 1 + 1e-12) :
+    phase_angle r d R = .ok (if 0 < (r * r + d * d - R * R) / (2 * r * d) then 0 else 180) :=
+  phase_angle_clamped hden h1 h2
+
 example : ∃ i k, phase_angle 1 2 2.5 = .ok i ∧ illuminated_fraction 1 2 2.5 = .ok k ∧
     k = (1 + Real.cos (pradians i)) / 2 ∧ 0 ≤ i ∧ i ≤ 180 :=
   illuminated_fraction_phase (by norm_num) (by norm_num) (by norm_num [abs_le]) (by norm_num)
